@@ -120,13 +120,13 @@ func Oxm(c *C, e *N) {
 	c.Len(f, 1)
 	c.Scope(f, BodyOnly1, 0)
 	if e.U["Class"] == 0xffff {
-		c.U(e, "ExperimenterID", 4)
+		c.URole(e, "ExperimenterID", 4, "type") // part of the field's identity, not a value to vary
 	}
 	if c.Enc {
-		c.mark("Value", len(e.B["Value"]), "bytes")
+		c.markN(e, "Value", len(e.B["Value"]), "bytes")
 		c.buf = append(c.buf, e.B["Value"]...)
 		if e.U["HasMask"] == 1 {
-			c.mark("Mask", len(e.B["Mask"]), "bytes")
+			c.markN(e, "Mask", len(e.B["Mask"]), "bytes")
 			c.buf = append(c.buf, e.B["Mask"]...)
 		}
 		c.End(f, BodyOnly1)
